@@ -27,6 +27,10 @@ pub struct Session {
     pub queries: usize,
     pub restarts: usize,
     pub wall_ms: u128,
+    busy: bool,
+    t0: Instant,
+    lines: Vec<String>,
+    vars: Vec<u32>,
 }
 
 fn spawn(which: Which, limit_ms: u64) -> (Child, ChildStdin, Receiver<String>) {
@@ -66,7 +70,7 @@ fn spawn(which: Which, limit_ms: u64) -> (Child, ChildStdin, Receiver<String>) {
 impl Session {
     pub fn new(which: Which, limit_ms: u64) -> Self {
         let (child, stdin, rx) = spawn(which, limit_ms);
-        Session { which, limit_ms, child, stdin, rx, queries: 0, restarts: 0, wall_ms: 0 }
+        Session { which, limit_ms, child, stdin, rx, queries: 0, restarts: 0, wall_ms: 0, busy: false, t0: Instant::now(), lines: vec![], vars: vec![] }
     }
     fn restart(&mut self) {
         let _ = self.child.kill();
@@ -75,12 +79,19 @@ impl Session {
         self.child = child;
         self.stdin = stdin;
         self.rx = rx;
+        self.busy = false;
+        self.lines.clear();
         self.restarts += 1;
     }
-    /// `body`: declarations + assertions (no check-sat). Returns the verdict and the model for `vars`.
-    pub fn ask(&mut self, body: &str, vars: &[u32]) -> Ans {
+    /// Submit a query without waiting: `body` = declarations + assertions (no check-sat).
+    pub fn send(&mut self, body: &str, vars: &[u32]) -> bool {
+        if self.busy {
+            self.restart();
+        }
         self.queries += 1;
-        let t0 = Instant::now();
+        self.t0 = Instant::now();
+        self.lines.clear();
+        self.vars = vars.to_vec();
         let mut q = String::with_capacity(body.len() + 256);
         q.push_str("(push 1)\n");
         q.push_str(body);
@@ -95,67 +106,100 @@ impl Session {
         q.push_str("(pop 1)\n(echo \"<<END>>\")\n");
         if self.stdin.write_all(q.as_bytes()).is_err() || self.stdin.flush().is_err() {
             self.restart();
-            self.wall_ms += t0.elapsed().as_millis();
-            return Ans::Unknown("solver pipe broken".into());
+            return false;
         }
-        let hard = Duration::from_millis(self.limit_ms * 2 + 3000);
-        let mut lines: Vec<String> = vec![];
+        self.busy = true;
+        true
+    }
+    /// Wait up to `wait` for the answer of the submitted query.
+    pub fn poll(&mut self, wait: Duration) -> Option<Ans> {
+        if !self.busy {
+            return Some(Ans::Unknown("no query".into()));
+        }
+        let t = Instant::now();
         loop {
-            let left = hard.checked_sub(t0.elapsed()).unwrap_or(Duration::from_millis(0));
+            let left = wait.checked_sub(t.elapsed()).unwrap_or(Duration::from_millis(0));
             match self.rx.recv_timeout(left) {
                 Ok(l) => {
                     if l.contains("<<END>>") {
-                        break;
+                        self.busy = false;
+                        self.wall_ms += self.t0.elapsed().as_millis();
+                        let lines = std::mem::take(&mut self.lines);
+                        let vars = std::mem::take(&mut self.vars);
+                        return Some(parse(&lines, &vars));
                     }
-                    lines.push(l);
+                    self.lines.push(l);
                 }
-                Err(RecvTimeoutError::Timeout) | Err(RecvTimeoutError::Disconnected) => {
+                Err(RecvTimeoutError::Timeout) => return None,
+                Err(RecvTimeoutError::Disconnected) => {
                     self.restart();
-                    self.wall_ms += t0.elapsed().as_millis();
-                    return Ans::Unknown("hard timeout".into());
+                    return Some(Ans::Unknown("solver died".into()));
                 }
             }
         }
-        self.wall_ms += t0.elapsed().as_millis();
-        let first = lines.first().map(|s| s.trim().to_string()).unwrap_or_default();
-        if first == "unsat" {
-            // anything but the expected get-value complaint is treated as inconclusive
-            let errs: Vec<&String> = lines.iter().skip(1).filter(|l| l.contains("(error")).collect();
-            if errs.iter().all(|l| l.contains("Cannot get value") || l.contains("model is not available")) {
-                return Ans::Unsat;
-            }
-            return Ans::Unknown(format!("unsat with error: {:?}", errs));
-        }
-        if lines.iter().any(|l| l.contains("(error")) {
-            return Ans::Unknown(lines.join(" | "));
-        }
-        if first == "sat" {
-            let rest: String = lines[1..].join(" ");
-            let mut vals = vec![];
-            for v in vars {
-                let key = format!("(x{} ", v);
-                if let Some(pos) = rest.find(&key) {
-                    let tail = &rest[pos + key.len()..];
-                    let end = match tail.find(')') {
-                        Some(e) => e,
-                        None => return Ans::Unknown("model parse".into()),
-                    };
-                    let tok = tail[..end].trim();
-                    if tok.starts_with("(-") || tok.starts_with('-') {
-                        return Ans::Unknown(format!("negative value {}", tok));
-                    }
-                    match tok.parse::<BigUint>() {
-                        Ok(b) => vals.push((*v, b)),
-                        Err(_) => return Ans::Unknown(format!("model token {}", tok)),
-                    }
-                } else {
-                    return Ans::Unknown(format!("model lacks x{}", v));
-                }
-            }
-            return Ans::Sat(vals);
-        }
-        Ans::Unknown(first)
     }
+    /// Give up on the submitted query (kills and respawns the solver process).
+    pub fn abort(&mut self) {
+        if self.busy {
+            self.wall_ms += self.t0.elapsed().as_millis();
+            self.restart();
+        }
+    }
+    /// Blocking query.
+    pub fn ask(&mut self, body: &str, vars: &[u32]) -> Ans {
+        if !self.send(body, vars) {
+            return Ans::Unknown("solver pipe broken".into());
+        }
+        let hard = Duration::from_millis(self.limit_ms * 2 + 3000);
+        match self.poll(hard) {
+            Some(a) => a,
+            None => {
+                self.abort();
+                Ans::Unknown("hard timeout".into())
+            }
+        }
+    }
+}
+
+fn parse(lines: &[String], vars: &[u32]) -> Ans {
+    let first = lines.first().map(|s| s.trim().to_string()).unwrap_or_default();
+    if first == "unsat" {
+        // anything but the expected get-value complaint is treated as inconclusive
+        let errs: Vec<&String> = lines.iter().skip(1).filter(|l| l.contains("(error")).collect();
+        if errs.iter().all(|l| l.contains("Cannot get value") || l.contains("model is not available")) {
+            return Ans::Unsat;
+        }
+        return Ans::Unknown(format!("unsat with error: {:?}", errs));
+    }
+    if lines.iter().any(|l| l.contains("(error")) {
+        return Ans::Unknown(lines.join(" | "));
+    }
+    if first == "sat" {
+        let rest: String = lines[1..].join(" ");
+        let mut vals = vec![];
+        for v in vars {
+            let key = format!("(x{} ", v);
+            if let Some(pos) = rest.find(&key) {
+                let tail = &rest[pos + key.len()..];
+                let end = match tail.find(')') {
+                    Some(e) => e,
+                    None => return Ans::Unknown("model parse".into()),
+                };
+                let tok = tail[..end].trim();
+                if tok.starts_with("(-") || tok.starts_with('-') {
+                    return Ans::Unknown(format!("negative value {}", tok));
+                }
+                match tok.parse::<BigUint>() {
+                    Ok(b) => vals.push((*v, b)),
+                    Err(_) => return Ans::Unknown(format!("model token {}", tok)),
+                }
+            } else {
+                return Ans::Unknown(format!("model lacks x{}", v));
+            }
+        }
+        return Ans::Sat(vals);
+    }
+    Ans::Unknown(first)
 }
 
 impl Drop for Session {
